@@ -249,7 +249,12 @@ class FilesystemOnionService(object):
             # released?!
             uploaded[0] = _await_descriptor_upload(config.tor_protocol, fhs, progress, await_all_uploads)
 
-        yield config.save()
+        try:
+            yield config.save()
+        except Exception:
+            # Tor refused the service, so no descriptor to wait for
+            _abandon_descriptor_wait(uploaded[0])
+            raise
         yield uploaded[0]
         return fhs
 
@@ -501,12 +506,12 @@ def _await_descriptor_upload(tor_protocol, onion, progress, await_all_uploads):
     # the first 'yield' should be the add_event_listener so that a
     # caller can do "d = _await_descriptor_upload()", then add the
     # service.
-    yield tor_protocol.add_event_listener('HS_DESC', hs_desc)
     try:
+        yield tor_protocol.add_event_listener('HS_DESC', hs_desc)
         yield uploaded
     except Exception:
-        # all uploads failed: the listener (and the HS_DESC
-        # subscription) must not outlive the failed attempt
+        # all uploads failed, or the wait was abandoned: the listener
+        # (and the HS_DESC subscription) must not outlive the attempt
         yield tor_protocol.remove_event_listener('HS_DESC', hs_desc)
         raise
     yield tor_protocol.remove_event_listener('HS_DESC', hs_desc)
@@ -553,7 +558,38 @@ def _add_ephemeral_service(config, onion, progress, version, auth=None, await_al
     # listener gets added before we issue ADD_ONION
     assert version in (2, 3)
     uploaded_d = _await_descriptor_upload(config.tor_protocol, onion, progress, await_all_uploads)
+    try:
+        yield _issue_add_onion(config, onion, version, auth)
+    except Exception:
+        # no service, so no descriptor to wait for
+        _abandon_descriptor_wait(uploaded_d)
+        raise
 
+    log.msg("{}: waiting for descriptor uploads.".format(onion.hostname))
+    yield uploaded_d
+
+
+def _abandon_descriptor_wait(uploaded_d):
+    """
+    Internal helper.
+
+    Stops a wait started with _await_descriptor_upload() (removing its
+    HS_DESC listener) when the service will not exist after all.
+    """
+    if uploaded_d is not None:
+        uploaded_d.addErrback(lambda _: None)
+        uploaded_d.cancel()
+
+
+@defer.inlineCallbacks
+def _issue_add_onion(config, onion, version, auth):
+    """
+    Internal helper.
+
+    Builds and issues the ADD_ONION command for _add_ephemeral_service()
+    and fills in the onion's hostname, private key and clients from
+    Tor's answer.
+    """
     # we allow a key to be passed that *doestn'* start with
     # "RSA1024:" because having to escape the ":" for endpoint
     # string syntax (which uses ":" as delimeters) is annoying
@@ -637,9 +673,6 @@ def _add_ephemeral_service(config, onion, progress, version, auth=None, await_al
             if line.startswith("ClientAuth="):
                 name, blob = line[11:].split(':', 1)
                 onion._add_client(name, blob)
-
-    log.msg("{}: waiting for descriptor uploads.".format(onion.hostname))
-    yield uploaded_d
 
 
 class _AuthCommon(object):
@@ -1188,7 +1221,12 @@ class FilesystemAuthenticatedOnionService(object):
             # released?!
             uploaded[0] = _await_descriptor_upload(config.tor_protocol, fhs, progress, await_all_uploads)
 
-        yield config.save()
+        try:
+            yield config.save()
+        except Exception:
+            # Tor refused the service, so no descriptor to wait for
+            _abandon_descriptor_wait(uploaded[0])
+            raise
         yield uploaded[0]
         return fhs
 
